@@ -175,6 +175,12 @@ func (c *Ctx) c09Isolated(kind string, formulas []string) {
 		c.R.Notes = append(c.R.Notes, fmt.Sprintf("%s: %d formulas in %.1fs", kind, n0, time.Since(t0).Seconds()))
 	}()
 	for len(formulas) > 0 {
+		if len(c.R.Failures) >= 4 {
+			// enough concrete failing formulas: a change that makes many evaluations hang would otherwise use up the
+			// time of the whole check, one watchdog period per formula
+			c.R.Notes = append(c.R.Notes, fmt.Sprintf("%s: stopped after %d failures, %d formulas not evaluated", kind, len(c.R.Failures), len(formulas)))
+			return
+		}
 		tmp, _ := os.CreateTemp("", "vh-c09-*.txt")
 		for _, fm := range formulas {
 			tmp.WriteString(strings.ReplaceAll(fm, "\n", " ") + "\n")
@@ -187,8 +193,11 @@ func (c *Ctx) c09Isolated(kind string, formulas []string) {
 		done := 0
 		rd := bufio.NewReader(stdout)
 		timer := time.AfterFunc(time.Duration(60+len(formulas)/20)*time.Second, func() { cmd.Process.Kill() })
+		// the worker answers every formula within its own 4 s watchdog: 15 s of silence mean it is stuck outside it
+		silence := time.AfterFunc(15*time.Second, func() { cmd.Process.Kill() })
 		for {
 			line, err := rd.ReadString('\n')
+			silence.Reset(15 * time.Second)
 			if len(line) > 0 {
 				var r c09res
 				if json.Unmarshal([]byte(line), &r) == nil {
@@ -214,6 +223,7 @@ func (c *Ctx) c09Isolated(kind string, formulas []string) {
 			}
 		}
 		timer.Stop()
+		silence.Stop()
 		werr := cmd.Wait()
 		os.Remove(tmp.Name())
 		if done < len(formulas) {
@@ -394,6 +404,9 @@ func runC09(c *Ctx) {
 			cyc = append(cyc, "@H1="+via+";H2=H3+1;H3="+back+";Sheet2!H2=Sheet1!H3@1+H1")
 		}
 	}
+	// formula cells referred to more than once in one evaluation (memoised results), followed by other formula cells
+	cyc = append(cyc, "C1+C1", "C1+C1+C2", "C1/SUM(C1:C2)", "SUM(C1:C2)+C1+C2", "C1*C1+C1&C2", "IF(C1>0,C1,C2)+C1", "@H1=C1+C1;H2=H1+C1@H1+H2+H1",
+		"@H1=C1;H2=H1+H1;H3=H2+H1@H3+H2+H1", "SUM(C1:C2,C1:C2)", "C1+Sheet1!C1+C2")
 	c.c09Isolated("reference-cycle", cyc)
 	// (iii) reference graphs: cells H1..Hn with formulas referring to subsets of each other
 	n := 3
@@ -415,6 +428,9 @@ func (c *Ctx) c09Graphs(n int) {
 		step = total / 600
 	}
 	for mask := 0; mask < total; mask += step {
+		if len(c.R.Failures) >= 4 {
+			return
+		}
 		func() {
 			desc := map[string]interface{}{"graph_mask": mask, "cells": n}
 			c.guard("C09_no_panic", desc, func() {
